@@ -428,9 +428,9 @@ def find_slots(ix):
                    and c.func.value.id != "script"}
             return tuple(sorted(got)) if len(got) == 1 else default
         if it in ("op['args']", 'op["args"]'):
-            slots.append(Slot("positional argument", f, l, u(l.target), None, ("args",), False))
+            slots.append(Slot("positional argument", f, l, u(l.target), None, colls(("args",)), False))
         elif it in ("op['kwargs'].items()", 'op["kwargs"].items()'):
-            slots.append(Slot("keyword argument", f, l, u(l.target.elts[1]), u(l.target.elts[0]), ("kwargs",), True))
+            slots.append(Slot("keyword argument", f, l, u(l.target.elts[1]), u(l.target.elts[0]), colls(("kwargs",)), True))
         elif re.fullmatch(r"\w+\[['\"]options['\"]\]\.items\(\)", it) and isinstance(l.target, ast.Tuple) and len(l.target.elts) == 2:
             slots.append(Slot("metadata option", f, l, u(l.target.elts[1]), u(l.target.elts[0]), colls(("option_strings",)), True))
     g = ix.func("program.list_to_blackbird")
@@ -1126,7 +1126,15 @@ def arrays(rep, R, ix, M, L):
     else:
         rep.bad(R, ix.site(s), "the insertion point starts after 'name', 'version' and the blank line (3) and moves only by one per metadata line and by the length of each inserted declaration",
                 inv[1] or "got %s" % inc_txt, key="hoist|index")
-    vc = [n for n in sn.body if isinstance(n, ast.Assign) and u(n.targets[0]) == "var_count"]
+    # the counter the names are numbered by (the code's own name: var_count, or the field of a collector object)
+    cnts = set()
+    for n in ast.walk(sn):
+        if isinstance(n, ast.Assign) and len(n.targets) == 1 and isinstance(n.targets[0], ast.Name):
+            m_ = re.fullmatch(r"A\{(\w+)\}", norm.canon_text(n.value) or "")
+            if m_:
+                cnts.add(m_.group(1))
+    cnt = cnts.pop() if len(cnts) == 1 else "var_count"
+    vc = [n for n in sn.body if isinstance(n, ast.Assign) and u(n.targets[0]) == cnt]
     rep.check(len(vc) == 1 and u(vc[0].value) == "0", R, ix.site(s), "declaration names are numbered from 0", key="hoist|count")
 
 
